@@ -300,7 +300,7 @@ Section Bandwidth.
       have Hnum : 0 < num.
         rewrite /num. apply: ltr_paddl; first by apply: mulr_ge0 => //; exact: t2_ge0.
         by apply: mulr_gt0.
-      case: ifP => Hden; last by rewrite mulr0 ltxx lexx ltr01.
+      case Hden: (0 < den); last by rewrite mulr0 ltxx lexx ltr01.
       set q := (den - num) * den^-1.
       have Hq : q < 1.
         rewrite /q mulrBl divff ?gt_eqF // ltr_subl_addr ltr_addl. by apply: divr_gt0.
